@@ -397,6 +397,9 @@ class Adagrad(StochasticSolver):
         )
         self._gnormsum = 0.0
 
+    def reset_state(self):  # noqa: D102
+        self._gnormsum = 0.0
+
     def set_failed_epoch(  # noqa: D102
         self,
     ):
